@@ -8,8 +8,54 @@ import (
 	"sync"
 	"time"
 
+	"github.com/Jigsaw-Code/outline-ss-server/ipinfo"
 	"github.com/Jigsaw-Code/outline-ss-server/service/metrics"
 )
+
+// a location database whose lookups take a moment (as an mmdb lookup does)
+type verifSlowDB struct{}
+
+func (verifSlowDB) GetIPInfo(ip net.IP) (ipinfo.IPInfo, error) {
+	if verifNative() {
+		time.Sleep(30 * time.Microsecond)
+	}
+	return ipinfo.IPInfo{CountryCode: "CA", ASN: ipinfo.ASN{Number: 64500, Organization: "Org"}}, nil
+}
+
+// the first two tunnels of a client start at the same moment: both are counted, and the client
+// stays active until both are closed
+func VH_C19_concurrent_first_tunnels() {
+	for rep := 0; rep < verifRepeat(300); rep++ {
+		verifBody_C19_first_tunnels()
+	}
+}
+
+func verifBody_C19_first_tunnels() {
+	verifRaceDetect(true)
+	verifSched(2)
+	c := newTunnelTimeMetrics(verifSlowDB{})
+	k1 := IPKey{netip.AddrFrom4([4]byte{203, 0, 113, 5}), "k1"}
+	verifPar(
+		func() { c.startConnection(k1) },
+		func() { c.startConnection(k1) },
+	)
+	c.mu.Lock()
+	cl := c.activeClients[k1]
+	n := 0
+	if cl != nil {
+		n = cl.connCount
+	}
+	c.mu.Unlock()
+	verifAssert("C19.first-tunnels.equals-a-sequential-order", n == 2)
+	verifAssert("C17.first-tunnels.both-counted", n == 2)
+	c.stopConnection(k1)
+	c.mu.Lock()
+	left := len(c.activeClients)
+	c.mu.Unlock()
+	verifAssert("C17.first-tunnels.active-until-last-closes", left == 1)
+	c.stopConnection(k1)
+	verifReach("C19.first-tunnels.done", true)
+}
 
 func verifPar(fs ...func()) {
 	var wg sync.WaitGroup
